@@ -298,12 +298,25 @@ def _pair(name):
     def b(g, W, sz):
         nr, nc = g.dim(sz), g.dim(sz * 2)
         ra, ka = g.rows(nr, nc)
-        mode = g.rng.choice(["same", "onebit", "onebit", "rand", "dims"])
+        mode = g.rng.choice(["same", "onebit", "onebit", "rand", "dims", "twobit", "wordpair"])
         rb = list(ra)
         nrb, ncb = nr, nc
         if mode == "onebit":
             i = g.rng.randrange(nr)
             rb[i] ^= 1 << _col(g, nc)
+        elif mode == "twobit":               # two differences, same or different rows
+            for _ in range(2):
+                rb[g.rng.randrange(nr)] ^= 1 << _col(g, nc)
+        elif mode == "wordpair":             # differences at the same bit offset of two (or three) words of one row
+            if nc <= 64:
+                nc = ncb = 65 + g.rng.randrange(200)
+                ra, ka = g.rows(nr, nc)
+                rb = list(ra)
+            i, c = g.rng.randrange(nr), g.rng.randrange(nc)
+            cols = sorted(set([c] + [x for x in range(c % 64, nc, 64)][:g.rng.choice([2, 2, 3, 99])]))
+            cols = g.rng.sample(cols, min(len(cols), g.rng.choice([2, 2, 3])))
+            for x in cols:
+                rb[i] ^= 1 << x
         elif mode == "rand":
             rb, _ = g.rows(nr, nc)
         elif mode == "dims":
@@ -365,6 +378,59 @@ def b_rw(g, W, sz):
     i, j, v = g.rng.randrange(nr), _col(g, nc), g.rng.getrandbits(1)
     lines = la + ["call read_bit A %d %d" % (i, j), "call write_bit A %d %d %d" % (i, j, v), "call read_bit A %d %d" % (i, j)]
     return _finish(lines, da), dict(shape=(nr, nc))
+
+
+# ------------------------------------------------------------------------------------------------
+# C13: row combination from given word offsets (mzd.h:920 mzd_combine_even_in_place, :994 mzd_combine_even, :1069
+# mzd_combine).  Domain: destination and source segments of the same length n = ncols(A) - 64*a_startblock, B with at
+# least n columns from its start word on.  The (width, start word) pairs are walked, not drawn: the vector loops
+# depend on the parity of the start words and on the number of words to the row end.
+# ------------------------------------------------------------------------------------------------
+_comb_count = [0]
+_COMB_PAIRS = [(w, sb) for w in range(1, 11) for sb in range(w)]
+
+
+def _combine_case(g, W, three):
+    r = g.rng
+    _comb_count[0] += 1
+    wa, asb = _COMB_PAIRS[_comb_count[0] % len(_COMB_PAIRS)]
+    nca = 64 * wa - (0 if r.random() < 0.3 else r.randint(1, 63))
+    if nca <= 64 * asb:
+        nca = 64 * asb + 1
+    n = nca - 64 * asb
+    bsb = r.choice([0, 1, 1, 2, 3, asb])
+    ncb = 64 * bsb + n + r.choice([0, 0, 1, 64, r.randint(0, 130)])
+    nra, nrb = r.randint(1, 5), r.randint(1, 5)
+    ar, br = r.randrange(nra), r.randrange(nrb)
+    ra, ka = g.rows(nra, nca)
+    rb, kb = g.rows(nrb, ncb, r.choice(["dense", "dense", "ones", "sparse"]))
+    la, da = g.operand("A", nra, nca, ra, W("A"))
+    lb, db = g.operand("B", nrb, ncb, rb, W("B"))
+    meta = dict(shape=(nra, nca), kinds=(ka, kb), width=wa, startwords=(asb, bsb), words_left=wa - asb)
+    if not three:
+        return _finish(la + lb + ["call combine_even_in_place A %d %d B %d %d" % (ar, asb, br, bsb)], da + db), meta
+    form = r.choice(["inplace", "inplace", "three", "three", "three", "same-other-row"])
+    if form == "inplace":          # C == A, same row, same start word: dispatches to the in-place kernel
+        return _finish(la + lb + ["call combine A %d %d A %d %d B %d %d" % (ar, asb, ar, asb, br, bsb)], da + db), dict(meta, form=form)
+    if form == "same-other-row" and nra > 1:   # C == A but another row: the three-operand kernel on one object
+        cr = (ar + 1) % nra
+        return _finish(la + lb + ["call combine A %d %d A %d %d B %d %d" % (cr, asb, ar, asb, br, bsb)], da + db), dict(meta, form=form)
+    csb = r.choice([0, 1, 2, 3, asb])
+    ncc, nrc = 64 * csb + n, r.randint(1, 4)
+    rc, _ = g.rows(nrc, ncc, r.choice(["dense", "ones", "zero"]))
+    lc, dc = g.operand("C", nrc, ncc, rc, W("C"))
+    cr = r.randrange(nrc)
+    return _finish(la + lb + lc + ["call combine C %d %d A %d %d B %d %d" % (cr, csb, ar, asb, br, bsb)], da + db + dc), dict(meta, form="three", cstart=csb)
+
+
+@op("combine_even_in_place", "C13", ["A", "B"])
+def b_combine_in_place(g, W, sz):
+    return _combine_case(g, W, False)
+
+
+@op("combine", "C13", ["C", "A", "B"])
+def b_combine(g, W, sz):
+    return _combine_case(g, W, True)
 
 
 # ------------------------------------------------------------------------------------------------
@@ -492,13 +558,18 @@ def b_djb(g, W, sz):
 # ------------------------------------------------------------------------------------------------
 def _ech_split_case(g):
     """the 1..6-table split of _mzd_echelonize_m4ri depends on kbar = number of pivots found in the current block of
-    up to 6k columns: explicit k in 2..8, ncols = 6k*q + rem for q in 0..2 and EVERY rem in 1..6k-1 (in particular
+    up to 6k columns: explicit k in 2..10, ncols = 6k*q + rem for q in 0..2 and EVERY rem in 1..6k-1 (in particular
     rem in (5k, 6k)), nrows = ncols + 14; dense (full column rank), 10 % density, or a pivot gap after exactly such a
     number of pivots"""
     r = g.rng
-    k = r.randint(2, 8)
+    k = r.choice([2, 3, 4, 5, 6, 7, 8, 9, 9, 10, 10])      # 6k <= 64: k = 9, 10 are admissible explicit parameters
     q = r.choice([0, 1, 2])
     rem = r.choice([r.randint(1, 6 * k - 1), r.randint(5 * k + 1, 6 * k - 1), r.randint(1, 6 * k - 1)])
+    if r.random() < 0.35:
+        # a strip eliminated with t tables whose pivot count crosses a 32-bit boundary of the strip word (kbar >= 33):
+        # (t, k) with t*k >= 33, remainder in [max((t-1)k + 1, 33), t*k]
+        t, k = r.choice([(tt, kk) for tt in range(1, 7) for kk in range(2, 11) if tt * kk >= 33])
+        rem = min(6 * k - 1, r.randint(max((t - 1) * k + 1, 33), t * k))
     nc = 6 * k * q + rem
     nr = nc + 14
     style = r.choice(["dense", "dense", "density10", "gap"])
